@@ -14,7 +14,8 @@ use scylla::cluster::ClusterState;
 use scylla::cluster::metadata::Strategy;
 use scylla::verif_hooks::cluster::{
     KeyspaceSpec, NodeSpec, cluster_from_topology, cluster_refresh, cluster_refresh_accepting, cluster_refresh_topology,
-    cluster_refresh_topology_accepting, set_sharders,
+    cluster_refresh_topology_accepting, cluster_refresh_topology_filtered, cluster_state_filtered, cluster_state_general,
+    set_sharders,
 };
 use std::collections::HashMap;
 use uuid::Uuid;
@@ -213,6 +214,94 @@ pub fn refresh_cluster(previous: &ClusterState, peers: &[PeerSpec], keyspaces: &
 /// A topology-only refresh of `previous` (`ClusterState::new_with_updated_topology`): keyspaces are kept.
 pub fn refresh_cluster_topology(previous: &ClusterState, peers: &[PeerSpec]) -> ClusterState {
     RT.with(|rt| rt.block_on(cluster_refresh_topology(previous, &node_specs(peers))))
+}
+
+/// `S3|!|N0=2`: keyspace `k<i>` = the i-th entry; `!` = the fetch of that keyspace failed (or: it is absent).
+pub fn parse_fetched(s: &str) -> Option<Vec<Option<Strat>>> {
+    if s == "-" {
+        return Some(vec![]);
+    }
+    s.split('|').map(|w| if w == "!" { Some(None) } else { parse_strategy(w).map(Some) }).collect()
+}
+
+pub fn fmt_fetched(v: &[Option<Strat>]) -> String {
+    if v.is_empty() {
+        "-".into()
+    } else {
+        v.iter().map(|o| o.as_ref().map(fmt_strategy).unwrap_or_else(|| "!".into())).collect::<Vec<_>>().join("|")
+    }
+}
+
+/// `ClusterState::new` (`previous = None`) or `previous.new_updated(..)` with per-keyspace fetch errors: entry `i`
+/// of `fetched` is keyspace `k<i>`; `None` puts an `Err` into `Metadata.keyspaces`, so that
+/// `resolve_metadata_keyspaces` keeps the previous state's definition or drops the keyspace.
+pub fn build_state_general(
+    previous: Option<(&ClusterState, &[PeerSpec])>,
+    peers: &[PeerSpec],
+    fetched: &[Option<Strat>],
+    accepting: bool,
+) -> ClusterState {
+    let ks: Vec<KeyspaceSpec> = fetched
+        .iter()
+        .enumerate()
+        .filter_map(|(i, s)| s.as_ref().map(|s| KeyspaceSpec { name: format!("k{}", i), strategy: to_strategy(s) }))
+        .collect();
+    let failed: Vec<String> = fetched.iter().enumerate().filter(|(_, s)| s.is_none()).map(|(i, _)| format!("k{}", i)).collect();
+    if let (Some((prev, prev_peers)), true) = (previous, accepting) {
+        reimpose(prev, prev_peers);
+    }
+    RT.with(|rt| {
+        rt.block_on(cluster_state_general(
+            previous.map(|p| p.0),
+            &node_specs(peers),
+            &ks,
+            &HashMap::new(),
+            &HashMap::new(),
+            &failed,
+            accepting,
+        ))
+    })
+}
+
+/// The peers the host filter accepts in a filtered refresh: flag `a`.
+fn accepted_ids(peers: &[PeerSpec]) -> Vec<Uuid> {
+    peers.iter().filter(|p| p.flags.contains('a')).map(|p| host_id(p.id)).collect()
+}
+
+/// As `build_state_general` with a per-peer host-filter verdict (flag `a` = accepted) and WITHOUT clearing the
+/// enabled-ness of the previous nodes: an old node is enabled iff its last spec said so (flag `d` = disabled).
+pub fn build_state_filtered(previous: Option<(&ClusterState, &[PeerSpec])>, peers: &[PeerSpec], fetched: &[Option<Strat>]) -> ClusterState {
+    let ks: Vec<KeyspaceSpec> = fetched
+        .iter()
+        .enumerate()
+        .filter_map(|(i, s)| s.as_ref().map(|s| KeyspaceSpec { name: format!("k{}", i), strategy: to_strategy(s) }))
+        .collect();
+    let failed: Vec<String> = fetched.iter().enumerate().filter(|(_, s)| s.is_none()).map(|(i, _)| format!("k{}", i)).collect();
+    if let Some((prev, prev_peers)) = previous {
+        reimpose(prev, prev_peers);
+    }
+    RT.with(|rt| {
+        rt.block_on(cluster_state_filtered(
+            previous.map(|p| p.0),
+            &node_specs(peers),
+            &ks,
+            &HashMap::new(),
+            &HashMap::new(),
+            &failed,
+            &accepted_ids(peers),
+        ))
+    })
+}
+
+/// Topology-only refresh with the per-peer filter (see `build_state_filtered`).
+pub fn refresh_topology_filtered(previous: &ClusterState, prev_peers: &[PeerSpec], peers: &[PeerSpec]) -> ClusterState {
+    reimpose(previous, prev_peers);
+    RT.with(|rt| rt.block_on(cluster_refresh_topology_filtered(previous, &node_specs(peers), &accepted_ids(peers))))
+}
+
+/// Runs a future on the harness' runtime (hooks that are `async`).
+pub fn block_on<F: std::future::Future>(f: F) -> F::Output {
+    RT.with(|rt| rt.block_on(f))
 }
 
 /// Re-imposes the enabled / connected overrides of `previous`' nodes (an earlier rejecting refresh from the same
